@@ -479,6 +479,66 @@ def corpus(ctx):
             rep.fail("pred", {"stream": "corpus", "w": w, "idx": ij}, {"why": why, "impl": impl, "python": py})
 
 
+def stale_case(c):
+    """`sl = s[idx]` resolves its index while `s` is w0 bits wide; then `s` is narrowed to w1. Whatever comes back from the export
+    names bits of the signal as it is: refused, or inside [0, w1) and as wide as the port."""
+    w0, w1, ij, in_concat = c
+    m = h.Module(name="Stale")
+    m.s = h.Signal(width=w0)
+    m.t = h.Signal(width=1)
+    sl = m.s[idx_py(ij)]
+    try:
+        n = sl.width
+    except Exception:  # noqa
+        return {"unresolvable": True}
+    if n == 0:
+        return {"unresolvable": True}
+    pw = n + (1 if in_concat else 0)
+    E = h.ExternalModule(name=f"StaleE{pw}", port_list=[h.Port(name="q", width=pw)])
+    m.e = E()(q=h.Concat(m.t, sl) if in_concat else sl)
+    m.s.width = w1
+    try:
+        pkg = h.to_proto(m)
+    except Exception as ex:  # noqa
+        return {"refused": type(ex).__name__}
+    pm = [x for x in pkg.modules if x.name.endswith("Stale")][0]
+    ws = {sg.name: sg.width for sg in pm.signals}
+    out, total = [], 0
+
+    def walk(t):
+        nonlocal total
+        k = t.WhichOneof("stype")
+        if k == "sig":
+            out.append([t.sig, ws.get(t.sig, 0) - 1, 0]); total += ws.get(t.sig, 0)
+        elif k == "slice":
+            out.append([t.slice.signal, t.slice.top, t.slice.bot]); total += t.slice.top - t.slice.bot + 1
+        else:
+            for q in t.concat.parts:
+                walk(q)
+    walk(pm.instances[0].connections[0].target)
+    return {"parts": out, "total": total, "port": pw, "widths": ws}
+
+
+def stale_slices(ctx):
+    rep = ctx.rep
+    cases = []
+    for w0 in (2, 3, 5, 8):
+        idxs = [{"i": i} for i in range(-w0, w0)] + [{"s": a, "e": b, "st": None} for a in range(w0) for b in range(a + 1, w0 + 1)]
+        for ij in idxs:
+            for w1 in range(1, w0):
+                cases.append((w0, w1, ij, (w0 + w1 + len(json.dumps(ij))) % 3 == 0))
+    if ctx.quick:
+        cases = [c for k, c in enumerate(cases) if c[0] <= 5 or k % 3 == 0]
+    for c, r in zip(cases, pmap(stale_case, cases, chunk=32)):
+        rep.count("stale", json.dumps(c), nontrivial="parts" in r)
+        if "parts" not in r:
+            continue
+        bad = [q for q in r["parts"] if not (0 <= q[2] <= q[1] < r["widths"].get(q[0], 0))]
+        if bad or r["total"] != r["port"]:
+            rep.fail("pred", {"stream": "stale", "c": list(c)}, {"why": f"a slice taken of a {c[0]}-bit signal, resolved, and exported after the signal was narrowed to {c[1]} bits names bits "
+                                                                        f"outside the signal (or not the port's width {r['port']}): {r['parts']}", "result": r})
+
+
 def run(ctx):
     ctx.rep.extra["rule"] = (
         "A: exhaustive box of (width, index) on Signal[...]; B: random trees of Slice/Concat over "
@@ -489,10 +549,19 @@ def run(ctx):
     corpus(ctx)
     stream_a(ctx)
     stream_b(ctx)
+    stale_slices(ctx)
 
 
 def replay(ctx, rp):
     case = rp["case"]
+    if case.get("stream") == "stale":
+        c = case["c"]
+        r = stale_case((c[0], c[1], c[2], c[3]))
+        print(json.dumps(r))
+        if "parts" in r and (r["total"] != r["port"] or [q for q in r["parts"] if not (0 <= q[2] <= q[1] < r["widths"].get(q[0], 0))]):
+            print(f"VIOLATION property=C03 replay={ctx_replay_path(rp)}")
+            return 1
+        return 0
     if case.get("stream") in ("A", "corpus"):
         w, ij = case["w"], case["idx"]
         impl = impl_inner((w, ij))
